@@ -8,6 +8,7 @@ spec/Pol.tla        exact model on Gaussian integers (value = (a, b)/sqrt2^k, St
 spec/Trace_Pol.tla  validates recorded conversions / Stokes vectors of arbitrary float samples in Rat
 """
 import json
+import multiprocessing as mp
 import os
 import random
 
@@ -24,6 +25,11 @@ NEGS = ["Neg_Pol_swapLR.cfg", "Neg_Pol_conj.cfg", "Neg_Pol_signV.cfg"]
 CONV = {"to_linear": "linear", "to_circular": "circular"}
 LD = np.longdouble
 SQRT2 = np.sqrt(LD(2))
+# One process is one "session".  SESSION[0] is the complex width whose conversions run first in this process: the main
+# process converts complex128 data first, a forked child (forked before any conversion has happened) complex64 data
+# first; results must not depend on what the process converted before.
+SESSION = ["complex128"]
+_GROUPS = {}
 
 
 def _load(path):
@@ -53,9 +59,10 @@ def build(a, b, shape, basis, dtype, dask, kwi=0, chunk_axis=0):
     B = np.asarray(b).reshape(shape)
     data = np.stack([A, B], axis=2).astype(dtype)
     if dask:
+        # chunk_axis: any axis of the data (time, channel, polarisation, trailing), or data.ndim = every axis at once
         ch = [s for s in data.shape]
-        ax = chunk_axis if chunk_axis != 2 else 0
-        ch[ax] = max(1, data.shape[ax] // 3)
+        for ax in (range(data.ndim) if chunk_axis % (data.ndim + 1) == data.ndim else [chunk_axis % (data.ndim + 1)]):
+            ch[ax] = max(1, data.shape[ax] // 3)
         data = da.from_array(data, chunks=tuple(ch))
     return pb.DualPolarizationSignal(data, pol_type=basis, **_kw(kwi))
 
@@ -138,12 +145,13 @@ def replay_group(chk, basis, hist, recs, shape, dtype, dask, kwi, chunk_axis=0):
     o = np.array([r["o"] for r in recs], dtype=float)
     a, b = o[:, 0] + 1j * o[:, 1], o[:, 2] + 1j * o[:, 3]
     z = build(a, b, shape, basis, dtype, dask, kwi, chunk_axis)
-    where = "%s %s -> %s shape=%r %s %s" % (basis, "[X,Y]" if basis == "linear" else "[L,R]", ".".join(hist) or "(nothing)",
-                                              tuple(z.shape), dtype, "dask" if dask else "numpy")
+    where = "%s %s -> %s shape=%r %s %s [session converts %s data first]" % (
+        basis, "[X,Y]" if basis == "linear" else "[L,R]", ".".join(hist) or "(nothing)", tuple(z.shape), dtype,
+        ("dask chunks %r" % (z.data.chunks,)) if dask else "numpy", SESSION[0])
 
     def case(i):
         return {"kind": "gen", "o": recs[i]["o"], "basis": basis, "hist": hist, "cur": recs[i]["cur"], "dtype": dtype,
-                "dask": dask, "kwi": kwi}
+                "dask": dask, "kwi": kwi, "first_dtype": SESSION[0], "chunk_axis": chunk_axis, "shape": list(shape)}
     try:
         y = apply(z, hist)
         d = common.materialise(y)
@@ -155,6 +163,10 @@ def replay_group(chk, basis, hist, recs, shape, dtype, dask, kwi, chunk_axis=0):
         chk.violation("gen:meta:" + m.split()[0], m + " | " + where, case(0))
         if m.startswith(("class", "shape")):
             return 0
+    if tuple(d.shape) != tuple(y.shape):
+        chk.violation("gen:computed-shape", "the result announces shape %r, its data computes to shape %r | %s"
+                      % (tuple(y.shape), tuple(d.shape), where), case(0))
+        return 0
     got = to_points(d, kind, shape)
     exp = expected_arrays(recs, kind)
     eps = LD(np.finfo(np.dtype(dtype).type(0).real.dtype).eps)
@@ -176,7 +188,8 @@ def replay_group(chk, basis, hist, recs, shape, dtype, dask, kwi, chunk_axis=0):
     return len(recs)
 
 
-def run_gen(chk, rnd):
+def gen_cases(chk):
+    """model checking + generation; -> {(basis, history): records of all lattice points}"""
     thorough = chk.tier == "thorough"
     os.makedirs(SCR, exist_ok=True)
     out = os.path.join(SCR, "%s_gen_%d.ndjson" % (PID, os.getpid()))
@@ -186,27 +199,44 @@ def run_gen(chk, rnd):
     chk.mc_must_hold("mc+gen:Pol_" + ("full" if thorough else "quick"), r)
     chk.exhaustive = bool(r.ok)
     if not r.ok:
-        return
+        return None
     recs = _load(out)
     os.remove(out)
     groups = {}
     for c in recs:
         groups.setdefault((c["basis"], tuple(c["hist"])), []).append(c)
+    for g in groups.values():
+        g.sort(key=lambda c: c["o"])
+    return groups
+
+
+def lattice_layouts(groups):
     P = len(next(iter(groups.values())))
     base = round(P ** 0.25)
     assert base ** 4 == P and all(len(g) == P for g in groups.values()), "lattice incomplete"
-    layouts = [(P, 1), (base ** 3, base), (base ** 2, base, base), (base, base, base, base), (base ** 2, base ** 2), (1, base, base ** 3)]
+    return P, [(P, 1), (base ** 3, base), (base ** 2, base, base), (base, base, base, base), (base ** 2, base ** 2), (1, base, base ** 3)]
+
+
+def replay_gen(chk, groups, rnd):
+    """main session: for every history the complex128 runs come before the complex64 ones; Dask data is chunked along
+    every axis in turn (time, channel, polarisation, trailing axes, all at once)"""
+    thorough = chk.tier == "thorough"
+    P, layouts = lattice_layouts(groups)
     n, ng = 0, 0
     kinds = {}
+    chunked = {}
     for gi, ((basis, hist), g) in enumerate(sorted(groups.items())):
-        g.sort(key=lambda c: c["o"])
         kinds[g[0]["cur"]["kind"]] = kinds.get(g[0]["cur"]["kind"], 0) + 1
         combos = [(dt, dk) for dt in ("complex128", "complex64") for dk in (False, True)]
         for ci, (dt, dk) in enumerate(combos):
-            lays = layouts if thorough and ci == 0 else [layouts[(gi + ci) % len(layouts)]]
+            lays = layouts if thorough and ci < 2 else [layouts[(gi + ci) % len(layouts)]]
             for li, shape in enumerate(lays):
-                n += replay_group(chk, basis, list(hist), g, shape, dt, dk, gi + ci + li, chunk_axis=(gi + li) % len(shape))
+                ca = (gi // 2 + ci // 2 + li) % (len(shape) + 2)
+                n += replay_group(chk, basis, list(hist), g, shape, dt, dk, gi + ci + li, chunk_axis=ca)
                 ng += 1
+                if dk:
+                    nm = "all" if ca == len(shape) + 1 else ["time", "channel", "pol"][ca] if ca < 3 else "trailing"
+                    chunked[nm] = chunked.get(nm, 0) + 1
         if gi in (3, 40, 77):
             c = g[len(g) // 3]
             chk.sample({"start": c["o"], "basis": basis, "hist": list(hist), "expected": c["cur"]})
@@ -216,6 +246,28 @@ def run_gen(chk, rnd):
     chk.notes["signal_runs"] = ng
     chk.notes["histories_by_result_kind"] = kinds
     chk.notes["layouts"] = [list(s) for s in layouts]
+    chk.notes["dask_runs_by_chunked_axis"] = chunked
+
+
+def child_session(arg):
+    """Runs in a process forked before any conversion happened: every complex64 conversion (lattice replay of all
+    histories + recorded float samples) comes before any complex128 one.  -> (violations, trace events, samples judged)"""
+    seed, tier, nsamp = arg
+    SESSION[0] = "complex64"
+    chk = framework.Check(PID, tier, seed)
+    chk._known = []
+    rnd = random.Random(seed + 1313)
+    P, layouts = lattice_layouts(_GROUPS)
+    n, events = 0, []
+    for dtype in ("complex64", "complex128"):
+        for gi, ((basis, hist), g) in enumerate(sorted(_GROUPS.items())):
+            shape = layouts[(gi + 3) % len(layouts)]
+            dask = gi % 3 == 0
+            n += replay_group(chk, basis, list(hist), g, shape, dtype, dask, gi, chunk_axis=(gi // 3) % (len(shape) + 2))
+        for basis in ("linear", "circular"):
+            for dask in (False, True):
+                events += safe_events(chk, random_samples(rnd, nsamp, dtype), basis, dtype, dask, 10 ** 6 + len(events), len(events) // 7)
+    return chk.violations, events, n
 
 
 # ---------------------------------------------------------------- trace
@@ -228,11 +280,17 @@ def flat4(d, j):
     return [d[j, 0, 0].real, d[j, 0, 0].imag, d[j, 0, 1].real, d[j, 0, 1].imag]
 
 
-def record_events(x, basis, dtype, dask, first_id=0):
+def record_events(x, basis, dtype, dask, first_id=0, chunk_axis=0):
     """drive the real code on samples x (n,1,2) and record events"""
     import common
-    z = build(x[:, 0, 0], x[:, 0, 1], (len(x), 1), basis, dtype, dask, 0)
-    mat = common.materialise
+    z = build(x[:, 0, 0], x[:, 0, 1], (len(x), 1), basis, dtype, dask, 0, chunk_axis)
+
+    def mat(sig):
+        d = common.materialise(sig)
+        if tuple(d.shape) != tuple(sig.shape):
+            raise ValueError("%s announces shape %r, its data computes to shape %r (input %s %s, chunks %r)"
+                             % (type(sig).__name__, tuple(sig.shape), tuple(d.shape), dtype, basis, getattr(z.data, "chunks", None)))
+        return d
     other = "circular" if basis == "linear" else "linear"
     conv = "to_" + other
     back = "to_" + basis
@@ -251,7 +309,8 @@ def record_events(x, basis, dtype, dask, first_id=0):
     st1, in1, it1 = stokes_of(zc)
     for j in range(len(x)):
         xin = rats(flat4(d0, j))
-        meta = {"basis": basis, "dtype": dtype, "dask": dask, "x": [float(v).hex() for v in flat4(d0, j)]}
+        meta = {"basis": basis, "dtype": dtype, "dask": dask, "x": [float(v).hex() for v in flat4(d0, j)],
+                "first_dtype": SESSION[0], "chunk_axis": chunk_axis}
         ev.append({"ev": "conv", "dir": conv, "eb": eb, "x": xin, "y": rats(flat4(dc, j)), "src": meta})
         ev.append({"ev": "roundtrip", "eb": eb, "x": xin, "y": rats(flat4(db, j)), "src": meta})
         ev.append({"ev": "identity", "x": xin, "y": rats(flat4(di, j)), "src": meta})
@@ -279,24 +338,37 @@ def random_samples(rnd, n, dtype):
     return x.astype(dtype)
 
 
-def run_trace(chk, rnd):
-    n = 1200 if chk.tier == "thorough" else 120
+def safe_events(chk, x, basis, dtype, dask, first_id, chunk_axis):
+    """record_events; a failure of the real code on these valid inputs is a finding, not a machinery error"""
+    try:
+        return record_events(x, basis, dtype, dask, first_id=first_id, chunk_axis=chunk_axis)
+    except Exception as ex:  # noqa
+        chk.violation("trace:raised", "conversions of %s %s samples (%s, chunk axis %d) failed: %r"
+                      % (dtype, basis, "dask" if dask else "numpy", chunk_axis, ex),
+                      {"kind": "trace", "src": {"basis": basis, "dtype": dtype, "dask": dask, "first_dtype": SESSION[0],
+                                                "chunk_axis": chunk_axis, "x": [float(v).hex() for v in flat4(x, 0)]}})
+        return []
+
+
+def run_trace(chk, rnd, child_events=()):
+    n = 1000 if chk.tier == "thorough" else 90
     events = []
     for dtype in ("complex128", "complex64"):
         for basis in ("linear", "circular"):
             for dask in (False, True):
                 x = random_samples(rnd, n // 2, dtype)
-                events += record_events(x, basis, dtype, dask, first_id=len(events))
+                events += safe_events(chk, x, basis, dtype, dask, len(events), len(events) // 5)
+    events += list(child_events)
     src = {e["id"]: e.pop("src") for e in events}
-    rejected, done = pfhelp.validate_parallel("Trace_Pol", events, nproc=8, timeout=1200, chk=chk)
+    rejected, done = pfhelp.validate_parallel("Trace_Pol", events, nproc=8, timeout=1200, heap="2g", chk=chk)
     chk.validated += done
     chk.notes["trace_events"] = done
     for e, failed in rejected:
         s = src[e["id"]]
         chk.violation("trace:%s:%s" % (e["ev"], "+".join(sorted(failed))),
-                      "%s event on %s %s sample %s (%s) rejected by Trace_Pol: %s; recorded result %s"
+                      "%s event on %s %s sample %s (%s; the session converted %s data first) rejected by Trace_Pol: %s; recorded result %s"
                       % (e["ev"], s["dtype"], s["basis"], [float.fromhex(h) for h in s["x"]], "dask" if s["dask"] else "numpy",
-                         sorted(failed), [float(pfhelp.undy(v)) for v in e["y"]]),
+                         s["first_dtype"], sorted(failed), [float(pfhelp.undy(v)) for v in e["y"]]),
                       {"kind": "trace", "src": s, "ev": e["ev"], "ulps": e.get("ulps")})
     e = events[3]
     chk.sample({"trace_event": e["ev"], "x": [float(pfhelp.undy(v)) for v in e["x"]], "y": [float(pfhelp.undy(v)) for v in e["y"]]})
@@ -358,15 +430,32 @@ def run(chk):
         if r.ok or r.violation is None:
             chk.machinery_errors.append("wrong variant %s was not rejected by TLC" % cfg)
     chk.notes["negative_models_rejected"] = negs
-    run_gen(chk, rnd)
-    run_trace(chk, rnd)
+    groups = gen_cases(chk)
+    if groups is None:
+        return
+    # the second session is forked now, before this process has converted anything
+    _GROUPS.clear()
+    _GROUPS.update(groups)
+    pool = mp.get_context("fork").Pool(1)
+    try:
+        handle = pool.apply_async(child_session, ((chk.seed, chk.tier, 150 if chk.tier == "thorough" else 20),))
+        replay_gen(chk, groups, rnd)
+        viol, child_events, nchild = handle.get(timeout=1500)
+    finally:
+        pool.terminate()
+    for key, desc, case in viol:
+        chk.violation(key, desc, case)
+    chk.validated += nchild
+    chk.notes["second_session_complex64_first"] = {"lattice_samples": nchild, "trace_events": len(child_events)}
+    run_trace(chk, rnd, child_events)
     run_histories(chk, rnd)
     chk.assumptions += [
         "TLC explores spec/Pol.tla exhaustively for Gaussian-integer samples of the stated range only; arbitrary float "
         "samples are covered by sampled trace validation",
         "IEEE arithmetic: one conversion costs at most 4 ulp of the sample norm, Stokes parameters 4 ulp of I "
         "(8 ulp after a conversion); ulp of the input's float kind",
-        "dtype widening of complex64 results under NumPy 2 (division by the float64 scalar sqrt(2)) is not judged"]
+        "dtype widening of complex64 results under NumPy 2 (division by the float64 scalar sqrt(2)) is not judged",
+        "two sessions (processes): complex128 conversions before complex64 ones and the reverse; other interleavings are not explored"]
 
 
 def replay(doc):
@@ -379,11 +468,22 @@ def replay(doc):
         bad = [v for v in chk.violations if v[0] == doc["key"]]
         print("VIOLATION property=C13 replay=(this case)  # %s" % doc["key"] if bad else "case passes")
         return 1 if bad else 0
+    first = c.get("first_dtype") or (c.get("src") or {}).get("first_dtype")
+    if first:
+        # put this process into the state of the session that found the case: its first conversions were of `first` data
+        SESSION[0] = first
+        for b in ("linear", "circular"):
+            p = build(np.array([1 + 2j]), np.array([3 - 1j]), (1, 1), b, first, False)
+            p.to_circular().to_linear().to_stokes()
+            p.to_linear().to_circular()
     if c["kind"] == "gen":
         chk = framework.Check(PID, "quick", 0)
         chk._known = []
         rec = {"o": c["o"], "cur": c["cur"]}
-        replay_group(chk, c["basis"], c["hist"], [rec], (1, 1), c["dtype"], c["dask"], c["kwi"])
+        # the single failing sample, repeated so that the recorded chunking is possible
+        shape = (3, 1) + (3,) * (len(c.get("shape", [1, 1])) - 2)
+        nrep = int(np.prod(shape))
+        replay_group(chk, c["basis"], c["hist"], [rec] * nrep, shape, c["dtype"], c["dask"], c["kwi"], c.get("chunk_axis", 0))
         for key, desc, _ in chk.violations:
             print("VIOLATION property=C13 replay=(this case)  # %s: %s" % (key, desc))
         if not chk.violations:
@@ -392,7 +492,12 @@ def replay(doc):
     s = c["src"]
     v = [float.fromhex(h) for h in s["x"]]
     x = np.array([[[complex(v[0], v[1]), complex(v[2], v[3])]]]).astype(s["dtype"])
-    events = record_events(x, s["basis"], s["dtype"], s["dask"])
+    x = np.repeat(x, 3, axis=0)
+    try:
+        events = record_events(x, s["basis"], s["dtype"], s["dask"], chunk_axis=s.get("chunk_axis", 0))
+    except Exception as ex:  # noqa
+        print("VIOLATION property=C13 replay=(this case)  # trace:raised: %r" % (ex,))
+        return 1
     for e in events:
         e.pop("src")
     rejected, _ = pfhelp.validate_parallel("Trace_Pol", events, nproc=1, timeout=300)
